@@ -286,6 +286,90 @@ pub fn run(ctx: &Ctx) -> Report {
         }
     });
     rep.merge(r);
+    // ---- the backend reports an error to the client and then gives up on the connection (its callback
+    //      returns Err right after `error()` / `finish_error()`): the ERR it reported was handed over
+    //      before, so it reaches the client whatever happens to the connection afterwards - over
+    //      plaintext and, half of the time, over a TLS upgrade (where "handed over" has to get through
+    //      the TLS layer's own buffers)
+    let n = if ctx.miri { 2 } else { ctx.n(600, 20_000) };
+    let r = par_cases(ctx, "C13", "error-then-the-backend-gives-up", n, |rng, i, rep| {
+        let (name, code) = &kinds_ref[rng.usize(kinds_ref.len())];
+        let code = *code;
+        let msg = messages(rng);
+        let cols = vec![simple_col("a", ColumnType::MYSQL_TYPE_LONG)];
+        let row = |k: i32| QOp::Row(vec![Cell::val(V::I32(k))], RowForm::Owned);
+        let q = |ops: Vec<QOp>| Script::Q(QProg { colsets: vec![cols.clone()], ops, on_err: OnErr::Drop });
+        let mut cmds = vec![Cmd::prepare(b"p"), Cmd::ping()];
+        let mut scripts = vec![Script::PrepOk { id: 1, params: vec![], cols: cols.clone() }];
+        let token = 900 + i;
+        let site = i % 4;
+        let site_name = ["error() then Err, COM_QUERY", "a row, finish_error() then Err, COM_QUERY", "error() then Err, COM_STMT_EXECUTE", "two rows, finish_error() then Err, COM_STMT_EXECUTE"][site as usize];
+        let ops = match site {
+            0 | 2 => vec![QOp::Error(code, msg.clone()), QOp::Bail(token)],
+            1 => vec![QOp::Start(0), row(1), QOp::FinishErr(code, msg.clone()), QOp::Bail(token)],
+            _ => vec![QOp::Start(0), row(1), row(2), QOp::FinishErr(code, msg.clone()), QOp::Bail(token)],
+        };
+        if site < 2 {
+            cmds.push(Cmd::query(b"q"));
+        } else {
+            cmds.push(Cmd::execute(1, &[], false));
+        }
+        scripts.push(q(ops));
+        // behind it, commands that are never served
+        if rng.bool() {
+            cmds.push(Cmd::ping());
+        }
+        let mut case = Case::new(cmds, scripts);
+        vary_transport(rng, &mut case);
+        case.over_tls = i % 2 == 1;
+        let obs = run_case(&case);
+        rep.evaluations += 1;
+        rep.counters.class(format!("gives up after the error: {}{}", site_name, if case.over_tls { ", TLS" } else { "" }));
+        if harness_panic(&obs, rep) {
+            return;
+        }
+        let d = || J::obj().set("kind", name.clone()).set("code", code).set("site", site_name).set("message", show(&msg)).set("over_tls", case.over_tls).set("outcome", obs.outcome.describe());
+        if i < 2 {
+            rep.sample(d());
+        }
+        if obs.outcome != Outcome::Token(token) {
+            // another ending (a panic, an Ok, a transport error): not this group's clause
+            if let Outcome::Panic { file, line, msg } = &obs.outcome {
+                rep.violations.push(viol("C13", format!("C13 {}", panic_signature(file, *line, msg)), format!("panic while an error was being reported: {}", obs.outcome.describe()), d()));
+            } else {
+                rep.violations.push(viol("C13", "C13 backend-error-not-returned".into(), format!("the callback returned its own error {} but run_on returned {}", token, obs.outcome.describe()), d()));
+            }
+            return;
+        }
+        let (_, _, dec) = match decode_output(&obs) {
+            Ok(x) => x,
+            Err(e) => {
+                rep.violations.push(viol("C13", "C13 bad-framing".into(), e, d()));
+                return;
+            }
+        };
+        // greeting, auth, prepare, ping, then the reply that carries the error
+        let errp = match dec.resps.get(4) {
+            Some(Resp::Parts(parts)) => match parts.last() {
+                Some(Part::Err(e)) => Some(e.clone()),
+                Some(Part::Rows { end: RowsEnd::Err(e), .. }) => Some(e.clone()),
+                _ => None,
+            },
+            _ => None,
+        };
+        let Some(e) = errp else {
+            rep.violations.push(viol("C13", format!("C13 reported-error-never-arrived @ {}", site_name), format!("the backend reported ({}, {}) and then ended the connection; the client received {} complete replies and no ERR packet for it (decoder stopped at: {:?})", code, show(&msg), dec.resps.len(), dec.stop), d()));
+            return;
+        };
+        let want_state = *ErrorKind::from(code).sqlstate();
+        if e.code != code || e.state != want_state || e.msg != msg {
+            rep.violations.push(viol("C13", format!("C13 err-differs @ {}", site_name), format!("ERR packet carries ({}, {}, {}) but the shim reported ({}, {}, {})", e.code, show(&e.state), show(&e.msg), code, show(&want_state), show(&msg)), d()));
+            return;
+        }
+        rep.counters.inc("err_packets_compared");
+        rep.counters.inc("errors_that_arrived_although_the_backend_gave_up");
+    });
+    rep.merge(r);
     // ---- several errors on one connection: the same kind again and again, texts of the same length
     //      that differ in a few characters ("Unknown table 't7'" / "Unknown table 't8'"), formatted by
     //      the backend into one reused buffer (same address) - every ERR carries its own text
